@@ -208,13 +208,23 @@ def main():
                 size = size_of(cls_, c)
                 if size > 200000 and not chk.thorough:
                     size = size_of(cls_, c)
-                for direction in ("upload", "download"):
+                for direction, pre in (("upload", "none"), ("download", "none"), ("upload", "same"), ("download", "same"),
+                                       ("upload", "longer"), ("download", "longer")):
+                    if pre != "none" and c == 64000 and cls_ not in ("1", "c"):
+                        continue
                     case = os.path.join(work, "single")
                     os.makedirs(case, exist_ok=True)
                     src, dst = os.path.join(case, "s.bin"), os.path.join(case, "d.bin")
                     data = rnd.choice([os.urandom(size), os.urandom(size // 2) + bytes(size - size // 2), b"\n" * size,
                                        (b"line of text\n" * (size // 13 + 1))[:max(0, size - 1)] + (b"\n" if size else b"")])
                     open(src, "wb").write(data)
+                    prelen = 0
+                    if pre != "none":
+                        # the destination exists already (written after the source, so it is the newer file): same size but other
+                        # bytes, or longer
+                        old = bytes((b ^ 0x5A) for b in data) + (b"" if pre == "same" else b"tail")
+                        open(dst, "wb").write(old)
+                        prelen = len(old)
                     rec = RecOpen()
                     classic.open = rec
                     try:
@@ -231,12 +241,13 @@ def main():
                         else:
                             classic.open = real_open
                     chk.evaluated()
-                    chk.distinct(("single", c, cls_, direction))
+                    chk.distinct(("single", c, cls_, direction, pre))
                     got = open(dst, "rb").read() if os.path.exists(dst) else None
                     if err is not None or got != data:
-                        chk.violation("single:%s" % direction, "C20 %s of a %d-byte file with chunk size %d: %s" % (
-                            direction, size, c, "raised %r" % err if err else "destination has %s bytes / differs" % (
-                                None if got is None else len(got))), {"size": size, "chunk": c, "direction": direction})
+                        chk.violation("single:%s" % direction, "C20 %s of a %d-byte file with chunk size %d%s: %s" % (
+                            direction, size, c, "" if pre == "none" else " onto an existing destination (%s, %d bytes)" % (pre, prelen),
+                            "raised %r" % err if err else "destination has %s bytes / differs" % (
+                                None if got is None else len(got))), {"size": size, "chunk": c, "direction": direction, "pre": pre})
                     else:
                         chk.validated()
                     ev = [e for e in rec.events if (e["op"] == "read") == (direction == "upload")]
@@ -252,20 +263,21 @@ def main():
                             full.append({"op": "read", "n": e["n"]})
                             full.append(e)
                         full.append({"op": "read", "n": 0})
+                    full = [{"op": "open", "n": 0}] + full + [{"op": "done", "n": len(got) if got is not None else 0}]
                     if len(full) < 3000:
-                        traces.append({"size": size, "chunk": c, "events": full, "direction": direction})
+                        traces.append({"size": size, "chunk": c, "pre": prelen, "events": full, "direction": direction})
                     shutil.rmtree(case, ignore_errors=True)
     finally:
         cl.close()
         shutil.rmtree(d, ignore_errors=True)
     # trace validation of the copy loops
-    batch = [{"size": t["size"], "chunk": t["chunk"], "events": t["events"]} for t in traces]
+    batch = [{"size": t["size"], "chunk": t["chunk"], "pre": t["pre"], "events": t["events"]} for t in traces]
     nreal = len(batch)
     base = max(batch, key=lambda t: len(t["events"])) if batch else None
     if base and len(base["events"]) > 2:
         b1 = dict(base, events=[dict(e) for e in base["events"]])
-        b1["events"][0]["n"] += 1
-        b2 = dict(base, events=[dict(e) for e in base["events"]][1:])
+        b1["events"][1]["n"] += 1
+        b2 = dict(base, events=[dict(e) for e in base["events"]][:1] + [dict(e) for e in base["events"]][2:])
         batch += [b1, b2]
     out, res2 = tlc.validate_traces("Trace_RpycFiles", batch, "", ["MaxChunk = 70000"], invariants=["PrefixCopied", "Complete"], name="c20")
     chk.add_tlc(res2, "trace validation: local read/write sizes of real upload_file/download_file runs")
